@@ -18,7 +18,7 @@ PREPROCESS = {
     'drop_first': lambda ls: ls[1:],
     'no_digits': lambda ls: [re.sub(r'\d', '', l) for l in ls],
 }
-LINE_POOL = ['abc', 'ab c', 'id: 12', 'id: 345', 'took 12ms', 'took 7ms', 'v1.2 ok', 'v10.31 ok', 'foo bar', 'bar',
+LINE_POOL = ['\ufeffabc', 'abc', 'ab c', 'id: 12', 'id: 345', 'took 12ms', 'took 7ms', 'v1.2 ok', 'v10.31 ok', 'foo bar', 'bar',
              '', ' ', '  abc', 'abc  ', '# comment', 'x', 'xx', 'XY z', '2020-01-02 done', '1999-12-31 done',
              'été', '日本 1', 'a\tb', '0xff', '0x1a2b', 'TAIL c', 'ab start', 'user bob', 'user alice', '12', '3',
              # characters that str.splitlines() treats as line boundaries but reading a file line by line does not
@@ -64,6 +64,14 @@ def gen_perm_case(rng, entry=None):
     max_permutation_cases around the number of differing lines"""
     n = rng.randint(3, 8)
     exp = ['line %d %s' % (i, rng.choice(['a', 'b', 'total=100', 'x'])) for i in range(n)]
+    if rng.random() < 0.25:
+        # repeated lines: the same distinct lines in other numbers are not a permutation (alpha alpha beta / beta beta alpha)
+        pool = rng.sample(['alpha', 'beta', 'gamma'], rng.randint(2, 3))
+        exp = [rng.choice(pool) for _ in range(n)]
+        act = [rng.choice(pool) for _ in range(n)] if rng.random() < 0.7 else rng.sample(exp, len(exp))
+        ndiff = sum(1 for a, e in zip(act, exp) if a != e)
+        return {'entry': entry or rng.choice(['string', 'file', 'files']), 'actual': join_text(rng, act),
+                'expected': join_text(rng, exp), 'opts': {'max_permutation_cases': max(1, ndiff + rng.choice([0, 0, 1, 3]))}}
     act = list(exp)
     idx = list(range(n))
     rng.shuffle(idx)
@@ -255,7 +263,8 @@ def run_assert(case):
         late_tmp = case.get('late_tmp', (len(case['actual']) + len(case['expected'])) % 4 == 1)
         if not late_tmp:
             os.makedirs(os.path.join(root, 'tmp'))
-        refpath = os.path.join(root, 'ref', 'ref.txt')
+        # (the reference may carry a flat-file extension: the names of the temporary files derive from it)
+        refpath = os.path.join(root, 'ref', 'ref.csv' if case.get('ref_csv', len(case['expected']) % 3 == 1) else 'ref.txt')
         with open(refpath, 'w', encoding='utf-8', newline='') as f:
             f.write(case['expected'])
         actpath = os.path.join(root, 'out', 'act.txt')
@@ -309,6 +318,27 @@ def run_assert(case):
             kw['ignore_patterns'] = pl
             res.clear()
         exc = None
+        if case.get('late_ref', (len(case['actual']) + len(case['expected'])) % 7 == 3):
+            # the same assertion failed once before, when the reference was not there yet (it was then created as the
+            # message advises): what is said now is about the files as they are now
+            with open(refpath, 'rb') as f_:
+                ref_bytes = f_.read()
+            os.remove(refpath)
+            try:
+                if case['entry'] == 'string':
+                    r.assertStringCorrect(case['actual'], refpath, **kw)
+                elif case['entry'] == 'file':
+                    r.assertTextFileCorrect(actpath, refpath, **kw)
+                else:
+                    r.assertTextFilesCorrect([actpath], [refpath], **kw)
+            except Exception:   # noqa
+                pass
+            with open(refpath, 'wb') as f_:
+                f_.write(ref_bytes)
+            for fn_ in os.listdir(os.path.join(root, 'tmp')):
+                os.remove(os.path.join(root, 'tmp', fn_))
+            res.clear()
+            before = snapshot(root)
         try:
             if case['entry'] == 'string':
                 r.assertStringCorrect(case['actual'], refpath, **kw)
